@@ -932,11 +932,13 @@ def get_stats(arr_in, weights=None, doprint=False, **kw):
         if ndim is None:
             print(numfmt % (amin, amax, mn, nsig * err, std))
         else:
+            # the mean is a scalar when inputmean= was sent to wmom
+            mnp = np.broadcast_to(np.atleast_1d(mn), (ndim,))
             for i in range(ndim):
                 if scalarify:
-                    print(numfmt % (amin, amax, mn[i], nsig * err[i], std[i]))
+                    print(numfmt % (amin, amax, mnp[i], nsig * err[i], std[i]))
                 else:
-                    print(numfmt % (amin[i], amax[i], mn[i],
+                    print(numfmt % (amin[i], amax[i], mnp[i],
                                     nsig * err[i], std[i]))
 
     if scalarify:
